@@ -68,6 +68,9 @@ type Gen struct {
 	AtStart   []Act `json:"at_start,omitempty"`
 	AtRunning []Act `json:"at_running,omitempty"`
 	AtShut    []Act `json:"at_shut,omitempty"`
+	// CloseFail: bit 1 - closing the value retrieved from the main provider for this generation fails, bit 2 - the
+	// auxiliary provider's (at stop time, or when Resolve closes the previous watch at the start of a reload).
+	CloseFail int `json:"closefail,omitempty"`
 	// FatalSync: pipeline component FatalComp reports a FatalError status synchronously from inside its own
 	// "start" / "shutdown" / "both" (Run's goroutine is the reporter).
 	FatalSync string `json:"fatal_sync,omitempty"`
@@ -185,6 +188,9 @@ func genGen(t *rapid.T, i, total int) Gen {
 	if pct(t, lb("pd"), 45) {
 		g.PauseShut = uni(t, lb("pause-shut"), 6)
 		g.AtShut = genActs(t, lb("at-shut"), pauseKinds, 2)
+	}
+	if pct(t, lb("cf"), 12) {
+		g.CloseFail = 1 + uni(t, lb("closefail"), 3)
 	}
 	if pct(t, lb("fs"), 8) {
 		g.FatalSync = oneOf(t, lb("fatal-sync"), []string{"start", "shutdown", "shutdown", "both"})
@@ -847,9 +853,23 @@ func (d *driver) oracle() *vt.Finding {
 			}
 		}
 	}
-	provShut := d.w.numProvShutdown()
-	if provShut > 1 {
-		return vt.Failf("provider-shutdown/count>1", "config provider Shutdown called %d times%s", provShut, fmtLog(ev, -1))
+	provShutBy, retrieved, closes := d.w.provLedger()
+	provShut := 0 // the largest count over the providers
+	for _, sch := range schemes {
+		n := provShutBy[sch]
+		if n > 1 {
+			return vt.Failf("provider-shutdown/count>1", "config provider %q: Shutdown called %d times%s", sch, n, fmtLog(ev, -1))
+		}
+		if n > provShut {
+			provShut = n
+		}
+	}
+	// ledger of retrieved values (not part of the statement: recorded, not judged)
+	for k, n := range closes {
+		if n > 1 {
+			c.Class("ledger:retrieved-value-closed-more-than-once")
+			c.Note("retrieved value %s closed %d times", k, n)
+		}
 	}
 	// per generation: did it come up?
 	for g, f := range facts {
@@ -910,11 +930,21 @@ func (d *driver) oracle() *vt.Finding {
 	}
 	// the last generation was up: Run ended on a stop reason - or on a reload whose retiring service failed to shut down
 	// (re-sent SIGHUPs are not counted as triggers: under lossy accounting a reload may have begun without one)
-	ambiguous := lspec.ShutFail >= 0 && (d.pending() >= 1 || d.lossy)
-	if ambiguous && provShut == 0 && final != otelcol.StateClosed {
-		c.Class("end:reload-aborted-by-failing-shutdown-of-old-service", fmt.Sprintf("end:reload-aborted:state=%v,provider-shutdown=%d", final, provShut))
-		if !mentions(err, token("shutdown", last, pick(lspec.comps(), lspec.ShutFail))) {
-			return vt.Failf("reload/old-shutdown-error-not-returned", "Run ended during a reload without provider shutdown (state %v) but its error does not carry the failing Shutdown of the old service: %v%s", final, err, fmtLog(ev, -1))
+	midReload := d.pending() >= 1 || d.lossy
+	ambiguous := lspec.ShutFail >= 0 && midReload
+	// ... or on a reload that could not even fetch the new configuration because closing the previous watch failed
+	// ("the new configuration cannot be brought up": Run returns the error, everything started is shut down)
+	closeAbort := lspec.CloseFail != 0 && midReload
+	if (ambiguous || closeAbort) && provShut == 0 && final != otelcol.StateClosed {
+		byShutdown := ambiguous && mentions(err, token("shutdown", last, pick(lspec.comps(), lspec.ShutFail)))
+		byClose := closeAbort && (mentions(err, token("close", last, mainScheme)) || mentions(err, token("close", last, auxScheme)))
+		switch {
+		case byShutdown:
+			c.Class("end:reload-aborted-by-failing-shutdown-of-old-service", fmt.Sprintf("end:reload-aborted:state=%v,provider-shutdown=%d", final, provShut))
+		case byClose:
+			c.Class("end:reload-aborted-by-failing-close-of-previous-watch", fmt.Sprintf("end:reload-aborted-by-close:state=%v,provider-shutdown=%d", final, provShut))
+		default:
+			return vt.Failf("reload/abort-error-not-returned", "Run ended during a reload without provider shutdown (state %v) but its error carries neither a failing Shutdown of the old service nor a failing close of the previous watch: %v%s", final, err, fmtLog(ev, -1))
 		}
 		return nil
 	}
@@ -925,8 +955,23 @@ func (d *driver) oracle() *vt.Finding {
 	if final != otelcol.StateClosed {
 		return vt.Failf("end-state/"+final.String(), "run reached Running and was stopped (%v) but the final state is %v, want Closed (Run err=%v)%s", keys(d.stopKinds), final, err, fmtLog(ev, -1))
 	}
-	if provShut != 1 {
-		return vt.Failf(fmt.Sprintf("provider-shutdown/count=%d", provShut), "run reached Running and was stopped (%v) but the config provider's Shutdown was called %d times, want 1%s", keys(d.stopKinds), provShut, fmtLog(ev, -1))
+	for _, sch := range schemes {
+		if n := provShutBy[sch]; n != 1 {
+			return vt.Failf(fmt.Sprintf("provider-shutdown/count=%d", n), "run reached Running and was stopped (%v) but Shutdown of config provider %q was called %d times, want 1 (all providers: %v; Run err=%v)%s", keys(d.stopKinds), sch, n, provShutBy, err, fmtLog(ev, -1))
+		}
+	}
+	// ledger: the values of the last generation are the ones still open at stop time
+	for _, sch := range schemes {
+		k := fmt.Sprintf("%s/g%d", sch, last)
+		switch {
+		case retrieved[k] > 0 && closes[k] == 1:
+			c.Class("ledger:open-value-closed-once-at-stop")
+		case retrieved[k] > 0:
+			c.Class(fmt.Sprintf("ledger:open-value-closed-%d-times-at-stop", closes[k]))
+		}
+	}
+	if lspec.CloseFail != 0 {
+		c.Class("stopped:close-of-retrieved-value-failed-at-stop")
 	}
 	for _, id := range lspec.comps() {
 		if lf.shutBegin[id] != 1 || lf.shutEnd[id] != 1 {
@@ -934,7 +979,7 @@ func (d *driver) oracle() *vt.Finding {
 		}
 	}
 	if err != nil {
-		anyShutFail := lspec.ShutFail >= 0
+		anyShutFail := lspec.ShutFail >= 0 || lspec.CloseFail != 0
 		if anyShutFail {
 			c.Class("stopped:run-returned-shutdown-error")
 		} else {
